@@ -43,12 +43,14 @@ def all_cases(tier, rng):
                         continue            # the certificate is never looked at
                     if beh == "stall" and tier == "quick" and rng.below(4) != 0:
                         continue
-                    out.append("tls t%d %s host=%s cert=%s behaviour=%s timeout=%d" % (n, ctor, host, cert, beh, rng.choice(timeouts)))
+                    dctx = rng.choice(["", "", " dialctx=cancelonly", " dialctx=laterdeadline"])     # the context the caller dials with
+                    out.append("tls t%d %s host=%s cert=%s behaviour=%s timeout=%d%s" % (n, ctor, host, cert, beh, rng.choice(timeouts), dctx))
                     n += 1
     # a peer that never reads, over a link whose writes block until read (unbuffered pipe) and over loopback TCP
     for ctor in ("ctor=pem roots=ca1", "ctor=pemdialable roots=ca1", "ctor=config roots=ca1 name=srv.test skip=0 mutate=0", "ctor=default"):
         for link in ("pipe", "tcp"):
             out.append("tls t%d %s host=srv.test cert=valid behaviour=stall link=%s timeout=%d" % (n, ctor, link, rng.choice(timeouts))); n += 1
+            out.append("tls t%d %s host=srv.test cert=valid behaviour=stall link=%s timeout=%d dialctx=laterdeadline" % (n, ctor, link, rng.choice(timeouts))); n += 1
         if ctor != "ctor=default":      # a rejected certificate deadlocks an unbuffered pipe (both ends writing): only successful handshakes there
             out.append("tls t%d %s host=srv.test cert=valid behaviour=handshake link=pipe timeout=%d" % (n, ctor, rng.choice(timeouts))); n += 1
     # several dials on one transport through a remote that walks over two host names (failover)
